@@ -270,6 +270,7 @@ def run(ctx):
     cov = dict(
         states=main.distinct, transitions=main.generated,
         traces_validated_against_impl=traces["validated"], trace_events=traces["events"],
+        trace_selftest=traces.get("selftest", []), traces_explained_with_switches=traces.get("with_switches", []),
         evaluations=stats["sessions"], distinct_nontrivial=len(stats["cases"]),
         rule="one evaluation = one client session of a Vmd.tla scenario (behaviour triple x arrival schedule) played against the real "
              "daemon and judged against the reply set the spec allows / the standalone run; distinct = (behaviour, hostile variant, "
